@@ -133,6 +133,10 @@ def gen_case(rng, ttys):
         # completion rule of C12 does not apply)
         tail = rng.choice([b"", b"3", b"3.12", b":", b"-pool-manager", b" helper"])
         case["cmdline"] = _s(rng.choice([b"", b"/usr/bin/", b"/opt/x y/"]) + comm_b + tail + b"\0--flag\0")
+    if nthreads == 1 and rng.random() < 0.5:
+        # single-threaded *now*: the process totals also hold the CPU time of threads that have exited, the record of the one
+        # remaining thread does not
+        case["threads"].append(dict(tid=case["pid"], comm=case["comm"], utime=case["utime"] // 3, stime=case["stime"] // 2))
     if nthreads > 1:
         base = case["pid"]
         for i in range(nthreads):
@@ -190,10 +194,25 @@ def setup():
 
 
 def run_case(case, acc):
+    """One case under one tick rate: "clock ticks divided by the system tick rate" - this host says 100, other machines
+    say 250, 1000 or 1024 (psutil reads sysconf(SC_CLK_TCK) once, into _pslinux.CLOCK_TICKS)."""
+    env = setup()
+    ps = env["ps"]
+    clk = (env["clk"], env["clk"], 250, 1000, 1024, 60)[int(harness.chash(case)[-4:], 16) % 6]
+    old = ps._pslinux.CLOCK_TICKS
+    ps._pslinux.CLOCK_TICKS = clk
+    if clk != env["clk"]:
+        acc.count("cases_under_another_tick_rate")
+    try:
+        _run_case(case, acc, clk)
+    finally:
+        ps._pslinux.CLOCK_TICKS = old
+
+
+def _run_case(case, acc, clk):
     env = setup()
     ps, vkernel, ProcTable = env["ps"], env["vkernel"], env["ProcTable"]
     from vlib.proctable import Thread
-    clk = env["clk"]
     t = ProcTable(btime=1_700_000_000)
     t.spawn(1, 1, ppid=0, comm=b"init")
     comm = _b(case["comm"])
@@ -352,6 +371,22 @@ def run_case(case, acc):
                 if any(th.get("gone") for th in ths):
                     feature = "thread_vanished_after_listing"
                 viols.append((f"threads_wrong:{feature}", f"threads: got {gotd!r} want {want!r} names={names!r}"))
+            elif not any(th.get("gone") for th in ths):
+                # the per-thread records through the other call paths (block primed with the process record first)
+                alt = {}
+                try:
+                    with pr.oneshot():
+                        pr.cpu_times(), pr.name()
+                        alt["in_oneshot_block"] = {r_.id: (r_.user_time, r_.system_time) for r_ in pr.threads()}
+                    alt["via_as_dict"] = {r_.id: (r_.user_time, r_.system_time)
+                                          for r_ in pr.as_dict(attrs=["cpu_times", "threads", "name"])["threads"]}
+                except Exception as e:  # noqa: BLE001
+                    viols.append((f"threads_exception:{type(e).__name__}:other_call_path", f"{e!r} comm={comm!r}"))
+                for how, g2 in alt.items():
+                    acc.count("thread_lists_compared_via_other_call_paths")
+                    if g2 != want:
+                        viols.append((f"threads_wrong:{how}", f"threads {how}: got {g2!r} want {want!r} (process totals "
+                                      f"{case['utime']}/{case['stime']} ticks)"))
     if victim is not None:
         tmap_fn.cache_clear()          # the next case builds the full map again
     if moved:
